@@ -278,6 +278,9 @@ func isSink(f *ssa.Function) bool {
 var exemptEdges = map[[2]string]string{
 	{"(*" + modPath + "/lib/iolib.File).cleanup", "os.Remove"}: "closing or releasing a temporary file created by io.tmpfile removes that file; " +
 		"the file can only have been created through safeio.TempFile, i.e. outside any iosafe context (handled like writes to already-open streams)",
+	{modPath + "/lib/iolib.popen$1", "(*os/exec.Cmd).Wait"}: "io.close / file:close on a handle made by io.popen waits for the child process; the closure is installed only by " +
+		"io.popen, which does not declare iosafe (and alarms through lib/iolib.popen -> (*os/exec.Cmd).Start if it ever does again), so the process it waits for " +
+		"cannot have been started in an iosafe context; reaping an existing child starts nothing and touches no file",
 }
 
 func isGate(f *ssa.Function) bool {
